@@ -406,8 +406,15 @@ func c08Generate(r *rand.Rand, thorough bool) *c08Universe {
 			}
 			m.Protos = append(m.Protos, p)
 		}
+		// the first module sometimes ships a file at a well-known-type path (as
+		// buf.build/protocolbuffers/wellknowntypes does): importing that path is then an ordinary
+		// dependency on this module, not a built-in
+		if i == 0 && r.IntN(5) == 0 && !g.used["google/protobuf/timestamp.proto"] {
+			g.take("google/protobuf/timestamp.proto")
+			m.Protos = append(m.Protos, &c08Proto{Path: "google/protobuf/timestamp.proto", Style: 0, Pkg: "google.protobuf", Payload: g.payload()})
+		}
 		exported = append(exported, exp)
-		// intra-module imports (never a dependency), imports of well-known types (never a dependency)
+		// intra-module imports (never a dependency), imports of well-known types (a dependency only if a module ships that path)
 		for k, p := range m.Protos {
 			if p.Style == 4 {
 				continue
